@@ -3,5 +3,7 @@ CONSTANTS
   Depth = 3
   Sandbox = TRUE
   FailMax = 0
-INVARIANTS NoExecConfines NoWritesConfines NoReadsConfines DeniedEndsRun TouchedAreOpened FileDelivered CmdDelivered StdoutDelivered FailingWriteFails OneNameOneStream CloseReportsStatus SeqScheduleAllowed LossNotAllowed AttemptIsDenied
+  MaxRuns = 2
+  Modes = {"default", "csv", "tsv"}
+INVARIANTS ConfigIsThisRuns RunStartsFresh CloseOfNonReader SystemSeesFlushed NoExecConfines NoWritesConfines NoReadsConfines DeniedEndsRun TouchedAreOpened FileDelivered CmdDelivered StdoutDelivered FailingWriteFails OneNameOneStream CloseReportsStatus SeqScheduleAllowed LossNotAllowed AttemptIsDenied
 CHECK_DEADLOCK FALSE
